@@ -49,7 +49,8 @@ Section Spec.
     (forall l, rollup_data_list_from_raw l <> RPanic).
 
   (** an accepted value satisfies the checks of its type: signature valid, proofs verify
-      against the header (for the full sequencer block: the block level proofs) *)
+      against the header (block level proofs against the data hash, every per-rollup proof of a
+      full or filtered block against the rollup transactions root) *)
   Definition stmt_accepted_consistent : Prop :=
     (forall r v, tx_from_raw r = ROk v -> tx_checks v = true) /\
     (forall r v, seq_block_from_raw r = ROk v -> seq_block_checks v = true) /\
@@ -75,10 +76,38 @@ Section Spec.
     (forall l vs, rollup_data_list_from_raw l = ROk vs ->
                   rollup_data_list_from_raw (map (rollup_data_to_raw B) vs) = ROk vs).
 
-  (** the full per-rollup statement for the sequencer block (false of the code, see
-      [seq_block_rollup_proofs_refuted]) and what holds instead *)
-  Definition stmt_seq_block_rollup_proofs : Prop :=
-    forall r v, seq_block_from_raw r = ROk v ->
+  (** [SequencerBlock::try_from_raw] as it was BEFORE the repair of finding F11: identical to
+      [seq_block_from_raw] except that the per-rollup inclusion proofs are parsed but not audited.
+      Kept only to record what was wrong; it is not the model of the current code. *)
+  Definition seq_block_from_raw_before_F11_fix (r : RawSeqBlock B) : res (SeqBlock B) :=
+    let? _ := require (blen (rs_bh B r) =? 32) [TInvalidBlockHash] in
+    let? rtp := field_proof B Trollup_transactions_proof TTransactionProofInvalid (rs_rtp B r) in
+    let? rip := field_proof B Trollup_ids_proof TIdProofInvalid (rs_rip B r) in
+    match rs_hdr B r with
+    | None => RErr [TFieldNotSet; Theader]
+    | Some rh =>
+        let? h := wrap [THeader] (header_from_raw B blen cid_ok rh) in
+        let? rts := wrap [TParseRollupTransactions] (rmap (rollup_txs_from_raw B blen) (rs_rts B r)) in
+        let m := rollup_txs_collect B beq rts in
+        let dh := h_dh B h in
+        let? _ := check_verify B beq nodeH rtp (leafH (sha (h_rtr B h))) dh
+                    [TInvalidRollupTransactionsRoot] in
+        let? _ := check_verify B beq nodeH rtp
+                    (leafH (sha (rollup_txs_root B cat leafH nodeH emptyH m))) dh
+                    [TRollupTransactionsNotInSequencerBlock] in
+        let? _ := check_verify B beq nodeH rip (leafH (sha (ids_root B leafH nodeH emptyH (map fst m)))) dh
+                    [TInvalidRollupIdsProof] in
+        let? uch := uch_from_raw B blen (rs_uch B r) in
+        let? eci := opt_eci_from_raw B beq sha leafH nodeH eci_parse dh (rs_eci B r) in
+        ROk {| s_bh := rs_bh B r; s_hdr := h; s_rts := m; s_rtp := rtp; s_rip := rip;
+               s_uch := uch; s_eci := eci |}
+    end.
+
+  (** the per-rollup statement for the pre-fix decoder (false, see
+      [seq_block_before_F11_fix_refuted]); for the current decoder it is part of
+      [seq_block_checks] *)
+  Definition stmt_seq_block_rollup_proofs_before_F11_fix : Prop :=
+    forall r v, seq_block_from_raw_before_F11_fix r = ROk v ->
       rollup_proofs_verify B beq cat leafH nodeH emptyH (h_rtr B (s_hdr B v)) (s_rts B v) = true.
 End Spec.
 
